@@ -7,7 +7,7 @@
 From Coq Require Import List Bool ZArith Lia.
 Import ListNotations.
 From Rosed Require Import Base.Res Base.ListX Base.Utf8 Base.Str Gem.Segment Gem.GString Model.Manip Model.Table Model.Options Model.Editor Model.Ops
-     Proofs.C04P Proofs.C14P Proofs.C18P Proofs.SeamP Proofs.C18Q Proofs.C18R Proofs.C14R Proofs.C18S Proofs.C18T Proofs.C18U Proofs.Utf8SplitP Proofs.C18V.
+     Proofs.C04P Proofs.C14P Proofs.C18P Proofs.SeamP Proofs.C18Q Proofs.C18R Proofs.C14R Proofs.C18S Proofs.C18T Proofs.C18U Proofs.Utf8SplitP Proofs.C18V Proofs.C18W Proofs.C18X Proofs.C18Y Proofs.C18Z.
 Open Scope Z_scope.
 
 (* Chars / Insert / Delete / Overtype on any valid UTF-8 text, any integer positions *)
@@ -212,3 +212,60 @@ Theorem C18_valid_indent_lines : forall (C : Classifier) (U : Upper) level opts 
   indent_opts level opts e = Ok r -> valid_utf8 (e_text r) = true.
 Proof. intros C U. exact indent_valid_lines. Qed.
 Print Assumptions C18_valid_indent_lines.
+
+(* the three inserted layouts: a block of code points, encoded and inserted with Insert *)
+Theorem C18_valid_inserted_layouts : forall (C : Classifier) (U : Upper) pos lt rt gap width m ex defs data opts e r,
+  valid_utf8 (e_text e) = true ->
+  (insert_two_columns_opts pos lt rt gap width m ex opts e = Ok r -> valid_utf8 (e_text r) = true) /\
+  (insert_definitions_table_opts pos defs width opts e = Ok r -> valid_utf8 (e_text r) = true) /\
+  (valid_utf8 (o_linesep (with_defaults opts)) = true -> insert_table_opts pos data width opts e = Ok r -> valid_utf8 (e_text r) = true).
+Proof.
+  intros C U pos lt rt gap width m ex defs data opts e r He.
+  exact (conj (two_columns_valid pos lt rt gap width m ex opts e r He) (conj (definitions_table_valid pos defs width opts e r He)
+        (fun Hs => table_valid pos data width opts e r He Hs))).
+Qed.
+Print Assumptions C18_valid_inserted_layouts.
+
+(* selections cut the text at code-point boundaries. ref_ok r: what precedes and what follows
+   the selection in the parent's text are valid UTF-8. A Lines selection of valid text holds valid
+   text (Chars: C18_valid_out); both kinds are ref_ok; Commit of a ref_ok editor holding valid text
+   gives valid text *)
+Theorem C18_valid_selections_and_commit : forall (C : Classifier) e s0 e0 r c,
+  valid_utf8 (e_text e) = true ->
+  (valid_utf8 (o_linesep (with_defaults (e_opts e))) = true -> ed_lines_sel e s0 e0 = Ok r -> valid_utf8 (e_text r) = true /\ ref_ok r) /\
+  (chars e s0 e0 = Ok r -> ref_ok r) /\
+  (valid_utf8 (e_text r) = true -> ref_ok r -> commit r = Ok c -> valid_utf8 (e_text c) = true).
+Proof.
+  intros C e s0 e0 r c He.
+  exact (conj (fun Hs E => conj (lines_sel_valid e s0 e0 r He Hs E) (lines_sel_ref_ok e s0 e0 r He Hs E))
+        (conj (chars_ref_ok e s0 e0 r He) (commit_valid r c))).
+Qed.
+Print Assumptions C18_valid_selections_and_commit.
+
+(* Justify in line mode, with or without JustifyLastLine (without: all lines but the last are
+   justified in a sub-editor that is then committed) *)
+Theorem C18_valid_justify_lines : forall (C : Classifier) (U : Upper) width opts e r, o_preserve (with_defaults opts) = false ->
+  valid_utf8 (e_text e) = true -> valid_utf8 (o_linesep (with_defaults opts)) = true ->
+  justify_opts width opts e = Ok r -> valid_utf8 (e_text r) = true.
+Proof. intros C U. exact justify_valid_lines. Qed.
+Print Assumptions C18_valid_justify_lines.
+
+(* chains of selections. all_ok e: the text of e is valid UTF-8 and every link of its parent
+   chain cuts the parent's text at code-point boundaries (chain_ok). It holds of Edit(valid
+   text); Chars, Lines, Commit and every replacement of the text by valid text keep it; and it
+   makes CommitAll and String return valid UTF-8 *)
+Theorem C18_valid_chains : forall (C : Classifier) e s0 e0 r t o,
+  (valid_utf8 t = true -> all_ok (edit t)) /\
+  (all_ok e -> valid_utf8 t = true -> all_ok (with_text e t)) /\
+  (all_ok e -> all_ok (with_options e o)) /\
+  (all_ok e -> chars e s0 e0 = Ok r -> all_ok r) /\
+  (all_ok e -> valid_utf8 (o_linesep (with_defaults (e_opts e))) = true -> ed_lines_sel e s0 e0 = Ok r -> all_ok r) /\
+  (all_ok e -> commit e = Ok r -> all_ok r) /\
+  (all_ok e -> commit_all e = Ok r -> valid_utf8 (e_text r) = true) /\
+  (all_ok e -> ed_string e = Ok t -> valid_utf8 t = true).
+Proof.
+  intros C e s0 e0 r t o.
+  exact (conj (all_ok_edit t) (conj (all_ok_with_text e t) (conj (all_ok_with_options e o) (conj (all_ok_chars e s0 e0 r)
+        (conj (all_ok_lines e s0 e0 r) (conj (all_ok_commit e r) (conj (commit_all_valid e r) (string_valid e t)))))))).
+Qed.
+Print Assumptions C18_valid_chains.
